@@ -4,6 +4,7 @@ package main
 
 import (
 	"fmt"
+	"go/ast"
 	"go/constant"
 	"go/token"
 	"go/types"
@@ -179,11 +180,40 @@ func ruleNoOrderDep(w *World, r *Report, in map[*ssa.Function]bool) {
 					return
 				}
 			}
+			// the same alignment moved into a private helper (element 0 of a zoom change of one
+			// ID): whether that result is a singleton depends on the zooms the callers pass
+			if k, ok := constInt(idx); ok && k == 0 && zoomChangeOfOneID(base) && !ast.IsExported(f.Name()) {
+				r.Add(Obligation{Rule: "NOORDERDEP", Key: key, Pos: w.Pos(ins.Pos()), Status: Undecided, Detail: "element 0 of the zoom change of a single ID inside a private helper: a singleton (and then order-free) exactly when the callers pass zooms that do not refine the ID", Canary: can})
+				return
+			}
 			r.Add(Obligation{Rule: "NOORDERDEP", Key: key, Pos: w.Pos(ins.Pos()), Status: Violated, Detail: "positional use of a map-ordered slice (" + shortInstr(ins) + "): which element is selected differs between identical calls", Canary: can})
 		})
 	}
 	r.Analysed["positional_uses_of_map_ordered_slices"] = n
 	r.add("NOORDERDEP", "module scan", "-", Discharged, fmt.Sprintf("%d positional use(s) of map-ordered slices examined", n))
+}
+
+// zoomChangeOfOneID: base is the list result of integrate.ChangeExtendedSpatialIdsZoom applied
+// to a one-element list literal.
+func zoomChangeOfOneID(base ssa.Value) bool {
+	ex, ok := resolve(base).(*ssa.Extract)
+	if !ok || ex.Index != 0 {
+		return false
+	}
+	c, ok := ex.Tuple.(*ssa.Call)
+	if !ok || !funcIs(calleeOf(c), modPath+"/integrate", "ChangeExtendedSpatialIdsZoom") || len(c.Call.Args) == 0 {
+		return false
+	}
+	sl, ok := resolve(c.Call.Args[0]).(*ssa.Slice)
+	if !ok {
+		return false
+	}
+	pt, ok := sl.X.Type().Underlying().(*types.Pointer)
+	if !ok {
+		return false
+	}
+	at, ok := pt.Elem().Underlying().(*types.Array)
+	return ok && at.Len() == 1
 }
 
 // ruleMapLoopCommutative: bodies of map-range loops only perform commutative effects.
